@@ -1,5 +1,5 @@
 CONSTANTS
-  MCPlansFan <- MCPlansFanAll
+  MCPlansFan <- MCPlansFanQuick
   KeepFirstError = TRUE
   RecoverPerStage = TRUE
   FirstErrorWins = TRUE
